@@ -13,9 +13,13 @@ Fixpoint text_dtorb (d : declarator) : bool :=
   let '(Dtor _ name func) := d in
   match name with Some n => nameb n | None => true end && match func with Some f => text_dtorb f | None => true end.
 
+(* a word of the type as text: a built-in word, or a possibly qualified name whose components are identifiers *)
+Definition type_wordb (w : ustr) : bool :=
+  spec_wordb w || (forallb nameb (split_colons w) && ueqb (join_colons (split_colons w)) w).
+
 Fixpoint text_fragment (d : decl) : bool :=
   let '(Decl spec _ _ _ _ dt params _ _ _ _ _) := d in
-  forallb (fun w => spec_wordb w || nameb w) spec && match dt with Some x => text_dtorb x | None => true end &&
+  forallb type_wordb spec && match dt with Some x => text_dtorb x | None => true end &&
   match params with Some ps => forallb text_fragment ps | None => true end.
 
 Lemma spec_word_ok w : spec_wordb w = true -> wordb w = true /\ word_tok w = {| tk := TYPE_SPECIFIER; tv := w |}.
@@ -51,25 +55,57 @@ Qed.
 Lemma weak_space_word w : wordb w = true -> Weak (32%N :: w) [word_tok w].
 Proof. intros Hw. change (32%N :: w) with ([32%N] ++ w). change [word_tok w] with ([] ++ [word_tok w]). apply any_weak_app; [apply any_space | apply weak_word; exact Hw]. Qed.
 
-Lemma weak_spec_words : forall spec, spec <> [] -> forallb (fun w => spec_wordb w || nameb w) spec = true -> Weak (join_with sp spec) (map spec_tok spec).
+Lemma weak_native_words : forall spec, spec <> [] -> forallb spec_wordb spec = true -> Weak (join_with sp spec) (map spec_tok spec).
 Proof.
   induction spec as [|w spec IH]; [contradiction|]. intros _ H. cbn [forallb] in H. apply andb_true_iff in H. destruct H as [Hw Hs].
-  destruct (type_word_ok w Hw) as (Hwb & Et). destruct spec as [|w2 spec'].
+  destruct (type_word_ok w ltac:(rewrite Hw; reflexivity)) as (Hwb & Et). destruct spec as [|w2 spec'].
   - cbn [join_with map]. rewrite <- Et. apply weak_word; exact Hwb.
   - change (join_with sp (w :: w2 :: spec')) with (w ++ sp ++ join_with sp (w2 :: spec')).
     change (map spec_tok (w :: w2 :: spec')) with ([spec_tok w] ++ map spec_tok (w2 :: spec')).
     rewrite app_assoc. apply any_weak_app; [rewrite <- Et; apply any_word_space; exact Hwb | apply IH; [discriminate | exact Hs]].
 Qed.
 
+Lemma any_colons : Any [58; 58]%N [ns_tok].
+Proof.
+  intros r f Hf. destruct f as [|f']; [cbn in Hf; lia|]. exists f'. split; [cbn in Hf; lia|]. reflexivity.
+Qed.
+
+Lemma path_toks_cons x y r : path_toks (x :: y :: r) = id_tok x :: ns_tok :: path_toks (y :: r).
+Proof. reflexivity. Qed.
+
+Lemma weak_path : forall names, names <> [] -> forallb nameb names = true -> Weak (join_colons names) (path_toks names).
+Proof.
+  induction names as [|x names IH]; [contradiction|]. intros _ H. cbn [forallb] in H. apply andb_true_iff in H. destruct H as [Hx Hn].
+  destruct (name_ok x Hx) as (Hwb & Et). destruct names as [|y r].
+  - cbn [join_colons path_toks flat_map]. unfold id_tok. rewrite <- Et. apply weak_word; exact Hwb.
+  - rewrite path_toks_cons.
+    change (join_colons (x :: y :: r)) with (x ++ [58; 58]%N ++ join_colons (y :: r)).
+    change (id_tok x :: ns_tok :: path_toks (y :: r)) with (([id_tok x] ++ [ns_tok]) ++ path_toks (y :: r)).
+    rewrite app_assoc. apply any_weak_app; [| apply IH; [discriminate | exact Hn]].
+    apply weak_any_app; [unfold id_tok; rewrite <- Et; apply weak_word; exact Hwb | apply any_colons | discriminate | reflexivity].
+Qed.
+
+(* the type part of a fragment declaration: built-in words, or one (qualified) name *)
+Lemma weak_type_words spec : spec <> [] -> forallb type_wordb spec = true ->
+  (forallb spec_wordb spec = true \/ exists w, spec = [w] /\ spec_wordb w = false) ->
+  Weak (join_with sp spec) (type_toks spec).
+Proof.
+  intros Hne Ht [Hn | (w & -> & Ew)].
+  - rewrite (type_toks_native spec Hn). apply weak_native_words; assumption.
+  - cbn [forallb] in Ht. rewrite andb_true_r in Ht. unfold type_wordb in Ht. rewrite Ew in Ht. cbn [orb] in Ht.
+    apply andb_true_iff in Ht. destruct Ht as [Hnames Hj]. apply Proof.Splicer.ueqb_eq in Hj.
+    cbn [join_with]. unfold type_toks. rewrite Ew. rewrite <- Hj at 1. apply weak_path; [| exact Hnames].
+    unfold split_colons. destruct (split_aux_nonempty w []) as (x & l & E). rewrite E. discriminate.
+Qed.
+
 Definition hdr_text (cst vol : bool) (spec : list ustr) : ustr :=
   (if cst then cp "const " else []) ++ (if vol then cp "volatile " else []) ++ join_with sp spec.
 
-Lemma weak_hdr cst vol spec : spec <> [] -> forallb (fun w => spec_wordb w || nameb w) spec = true -> Weak (hdr_text cst vol spec) (head_toks cst vol spec).
+Lemma weak_hdr cst vol spec : Weak (join_with sp spec) (type_toks spec) -> Weak (hdr_text cst vol spec) (head_toks cst vol spec).
 Proof.
-  intros Hne Hs. unfold hdr_text, head_toks.
+  intros Hw. unfold hdr_text, head_toks.
   assert (Hc : Any (cp "const ") [tok_of TYPE_QUALIFIER "const"]) by (apply (any_word_space (cp "const")); reflexivity).
   assert (Hv : Any (cp "volatile ") [tok_of TYPE_QUALIFIER "volatile"]) by (apply (any_word_space (cp "volatile")); reflexivity).
-  pose proof (weak_spec_words spec Hne Hs) as Hw.
   destruct cst, vol; cbn [app].
   - apply (any_weak_app (cp "const ") [_] _ _ Hc). apply (any_weak_app (cp "volatile ") [_] _ _ Hv). exact Hw.
   - apply (any_weak_app (cp "const ") [_] _ _ Hc). exact Hw.
@@ -193,7 +229,12 @@ Proof.
   destruct (in_fragment_fields _ _ _ _ _ _ _ _ _ _ _ _ _ Hfr) as (Hs & -> & -> & -> & -> & -> & Hok & Hdt & Hpar).
   cbn [text_fragment] in Htx. apply andb_true_iff in Htx. destruct Htx as [Htx Htp]. apply andb_true_iff in Htx. destruct Htx as [Hsw Htd].
   rewrite render_decl_eq, decl_toks_eq. cbn [dsize] in Hn.
-  pose proof (weak_hdr cst vol spec Hs Hsw) as Whdr.
+  assert (Hshape : forallb spec_wordb spec = true \/ exists w, spec = [w] /\ spec_wordb w = false).
+  { unfold spec_okb in Hok. destruct (named_type c spec) as [[id tm']|] eqn:En.
+    - right. unfold named_type in En. destruct spec as [|w [|w2 l]]; try discriminate.
+      destruct (spec_wordb w) eqn:Ew; [discriminate|]. exists w. split; [reflexivity | exact Ew].
+    - left. apply andb_true_iff in Hok. destruct Hok as [Hok _]. apply andb_true_iff in Hok. destruct Hok as [Hok _]. exact Hok. }
+  pose proof (weak_hdr cst vol spec (weak_type_words spec Hs Hsw Hshape)) as Whdr.
   (* the parameter part *)
   assert (Wpar : Weak (par_text params fc) (par_toks params fc) /\ okstart (par_text params fc) (par_toks params fc)).
   { destruct params as [ps|]; [| split; [apply any_weak, any_nil | reflexivity]].
@@ -270,9 +311,17 @@ Proof.
   destruct d as [spec st cst vol tm dt params arr at_ init ta fc].
   destruct (in_fragment_fields _ _ _ _ _ _ _ _ _ _ _ _ _ Hfr) as (Hs & -> & -> & -> & -> & -> & Hok & Hdt & Hpar).
   rewrite decl_toks_eq, !app_length. cbn [dsize] in *.
-  assert (Hh : List.length spec <= List.length (head_toks cst vol spec)).
-  { unfold head_toks. rewrite !app_length, map_length. lia. }
-  assert (H1 : 1 <= List.length spec) by (destruct spec; [contradiction | cbn [List.length]; lia]).
+  assert (Hh : spec_len spec <= List.length (head_toks cst vol spec) /\ 1 <= List.length (head_toks cst vol spec)).
+  { destruct (head_first cst vol spec Hs) as (t0 & r0 & E0 & _).
+    split; [| rewrite E0; cbn [List.length]; lia].
+    unfold head_toks. rewrite !app_length. unfold spec_len, type_toks.
+    destruct spec as [|w [|w2 l]]; [contradiction | | rewrite map_length; lia].
+    destruct (spec_wordb w); [cbn [List.length]; lia|].
+    destruct (split_colons w) as [|n0 rest]; [cbn [List.length]; lia|]. cbn [path_toks List.length].
+    assert (Hfm : List.length rest <= List.length (flat_map (fun n1 : ustr => [ns_tok; id_tok n1]) rest)).
+    { clear. induction rest as [|x rest IH]; [cbn; lia|]. cbn [flat_map app List.length]. lia. }
+    lia. }
+  destruct Hh as (Hh & H1).
   assert (Hd : match dt with Some x => depth x | None => 0 end <= List.length (dt_toks dt)).
   { destruct dt as [x|]; [apply depth_le_toks | cbn; lia]. }
   destruct params as [ps|]; cbn [par_toks List.length]; [|lia].
